@@ -74,6 +74,12 @@ class Gen:
         self.dist = {}
         self.features = features
         self.fn_bases = []       # index of the first scope of each function literal being generated
+        # fault injection: ONE typed position of the program receives an expression of a different kind.  A correct
+        # compiler rejects such a program (nothing to judge); a compiler that lost a check accepts it and the wrong
+        # kind shows up in an observation or as a run-time type error.
+        self.fault_at = None     # number of the expr() call that is replaced (None = no fault)
+        self.fault_done = None
+        self.ncalls = 0
 
     # ------------------------------------------------------------------ plumbing
     def emit(self, s):
@@ -119,11 +125,13 @@ class Gen:
         self.count("obs:" + label.split(":")[0])
 
     # ------------------------------------------------------------------ types
-    def rand_type(self, depth=2, allow_fn=True, allow_opt=True, allow_alias=True):
+    def rand_type(self, depth=2, allow_fn=True, allow_opt=True, allow_alias=True, allow_mixed=True):
         r = self.r
         choices = ["nat"] * 5
         if depth > 0:
             choices += ["open", "open", "map"]
+            if allow_mixed:
+                choices += ["mixed"]
             if allow_opt:
                 choices += ["opt", "opt"]
             if allow_fn:
@@ -140,6 +148,8 @@ class Gen:
             return opt(inner)
         if c == "open":
             return open_(self.rand_type(depth - 1, allow_fn=False))
+        if c == "mixed":
+            return mixed(*[self.rand_type(depth - 1, allow_fn=False, allow_mixed=False) for _ in range(r.randint(2, 3))])
         if c == "map":
             return mp(r.choice([INT, STR]), self.rand_type(depth - 1, allow_fn=False, allow_opt=False))
         if c == "fn":
@@ -180,6 +190,15 @@ class Gen:
         r = self.r
         t0 = self.res(t)
         k = t0[0]
+        self.ncalls += 1
+        if self.fault_at is not None and self.fault_done is None and self.ncalls >= self.fault_at:
+            w = self.wrong_type(t0)
+            if w is not None:
+                self.fault_done = (ms(t) or "?", ms(w) or "?")
+                self.fault_at = None
+                e = self.expr(w, 1, need_present=True)
+                self.count("fault")
+                return "(### FAULT ### %s)" % e
         cands = []
         self.exact = exact
         # variables of this type (alias-insensitive at the top unless `exact`)
@@ -198,7 +217,7 @@ class Gen:
                 cands += ["typeof"]
             cands += ["call", "index", "field", "or", "get", "mapget"]
         elif k == "opt":
-            cands += ["base", "inner", "inner"] + ([] if need_present else ["nil"]) + ["call", "field"]
+            cands += ["base", "inner", "inner"] + ([] if need_present else ["nil", "parse"]) + ["call", "field"]
         elif k in ("open", "mixed", "map", "fn", "class"):
             cands += ["base", "call", "field"]
         if exact:
@@ -210,6 +229,33 @@ class Gen:
                 self.count("expr:" + c)
                 return e
         return self.base_expr(t, need_present)
+
+    def wrong_type(self, t0):
+        """a type whose values can never be stored where t0 is expected (different kind skeleton, never just
+        optionality: a T? in a T slot only lets nil through, which the property tolerates)"""
+        r = self.r
+        k = t0[0]
+        base = t0[1] if k == "opt" else t0
+        base = self.res(base)
+        pool = [x for x in NATS if x != base] + [open_(INT), open_(STR), mp(STR, INT)]
+        if self.classes:
+            pool.append(("class", sorted(self.classes)[0]))
+        if base[0] == "open":
+            inner = self.res(base[1])
+            pool = [open_(x) for x in NATS if x != inner and self.res(inner)[0] == "nat"] + [x for x in NATS] + [mp(STR, INT)]
+        elif base[0] == "mixed":
+            pool = [mixed(*(list(base[1]) + [INT])), mixed(*base[1][:-1]) if len(base[1]) > 2 else open_(BOOL)] + NATS
+        elif base[0] == "map":
+            pool = [mp(base[1], x) for x in NATS if x != self.res(base[2])] + NATS + [open_(INT)]
+        elif base[0] == "fn":
+            ps, ret = list(base[1]), base[2]
+            pool = [fn(ps + [INT], ret), fn(ps, STR if ret is None or self.res(ret) != STR else INT)] + NATS
+            if ps:
+                pool.append(fn(ps[:-1], ret))
+        elif base[0] == "class":
+            pool = [x for x in NATS] + [("class", c) for c in sorted(self.classes) if c != base[1]]
+        pool = [x for x in pool if x != base and ms(x) is not None]
+        return r.choice(pool) if pool else None
 
     def base_expr(self, t, need_present=False):
         """always succeeds: a literal / constructor expression of type t"""
@@ -254,6 +300,21 @@ class Gen:
             return "nil"
         if c == "inner":       # T? accepts T
             return self.expr(t0[1], d)
+        if c == "parse":
+            inner = self.res(t0[1])
+            good = {INT: ('"12"', "parse_int()"), BIGINT: ('"123"', "parse_bigint()"), FLOAT: ('"2.5"', "parse_float()"),
+                    BOOL: ('"true"', "parse_bool()"), BYTE: ('"0b11"', "parse_byte()")}
+            if inner not in good:
+                return None
+            txt, m = good[inner]
+            q = r.random()
+            if q < 0.4:
+                return "%s.%s" % (txt, m)
+            if q < 0.6:
+                return '"zz".%s' % m                     # does not parse: nil
+            if inner == INT and q < 0.8:
+                return '%s.index_of("a")' % self.atom(self.expr(STR, 0))
+            return "%s.%s" % (self.atom(self.expr(STR, 0)), m)
         if c == "typeof":
             return "typeof " + self.atom(self.expr(self.rand_type(1, allow_fn=False), 0))
         if c == "op":
@@ -261,7 +322,11 @@ class Gen:
         if c == "cmp":
             a = r.choice(NUMS)
             b = r.choice(NUMS)
-            if r.random() < 0.2:
+            q = r.random()
+            if q < 0.1:
+                a = b = r.choice(NATS)
+                sym = "is"
+            elif q < 0.3:
                 a = b = r.choice([STR, BOOL])
                 sym = r.choice(["==", "!="])
             else:
@@ -276,7 +341,7 @@ class Gen:
             return self.method_expr(t0, d)
         if c == "call":
             fs = [v for v in self.vars() if self.res(v.ty)[0] == "fn" and self.res(v.ty)[2] is not None
-                  and self.res(self.res(v.ty)[2]) == t0 and v.never_nil]
+                  and self.res(self.res(v.ty)[2]) == t0 and v.never_nil and not getattr(v, "nocall", False)]
             if not fs or (need_present and k == "opt"):
                 return None
             f = r.choice(fs)
@@ -298,6 +363,13 @@ class Gen:
             if not ls:
                 return None
             v, i = r.choice(ls)
+            if self.fault_at is not None and self.fault_done is None and r.random() < 0.2:
+                # an index is a typed position too (int / bigint only)
+                w = r.choice([FLOAT, BOOL, STR, BYTE])
+                self.fault_at = None
+                self.fault_done = ("int (index)", ms(w))
+                self.count("fault")
+                return "%s[(### FAULT ### %s)]" % (v.name, self.expr(w, 0, need_present=True))
             if self.res(v.ty)[0] == "open" and r.random() < 0.4:
                 iv = [x for x in self.vars() if self.res(x.ty) == INT and x.const and getattr(x, "val", None) is not None and x.val < v.minlen]
                 if iv:
@@ -308,6 +380,13 @@ class Gen:
             if not ms_:
                 return None
             v = r.choice(ms_)
+            if self.fault_at is not None and self.fault_done is None and r.random() < 0.2:
+                kt = self.res(self.res(v.ty)[1])
+                w = r.choice([x for x in NATS if x != kt])
+                self.fault_at = None
+                self.fault_done = (ms(kt) + " (map key)", ms(w))
+                self.count("fault")
+                return "%s[(### FAULT ### %s)]" % (v.name, self.expr(w, 0, need_present=True))
             return "%s[%s]" % (v.name, r.choice(v.keys))
         if c == "field":
             os_ = []
@@ -464,7 +543,8 @@ class Gen:
     def stmt(self, in_fn=False):
         r = self.r
         opts = ["decl"] * 4 + ["observe"] * 4 + ["reassign"] * 2 + ["opassign", "if", "if", "from", "while",
-                "listops", "mapops", "fndecl", "unwrap", "fieldset", "index_set"]
+                "listops", "mapops", "fndecl", "fndecl", "unwrap", "fieldset", "index_set", "unpack", "assert", "elem_opassign",
+                "strlist", "nested", "recfn", "hof", "while_unwrap"]
         if in_fn and self.ret_ty is not None:
             opts += ["early_return"]
         if self.loop_depth > 0:
@@ -490,6 +570,9 @@ class Gen:
             n = r.randint(1, 3)
             e = "[" + ", ".join(self.expr(t0[1], 1, need_present=True) for _ in range(n)) + "]"
             minlen = n
+        elif t0[0] == "mixed":
+            e = self.base_expr(t)
+            minlen = len(t0[1])
         elif t0[0] == "map":
             e = self.base_expr(t)
             keys = ['"k0"', '"k1"'] if self.res(t0[1]) == STR else ["1", "2"]
@@ -500,12 +583,21 @@ class Gen:
             e = self.expr(t, 2)
         form = r.random()
         const = False
-        if t0[0] in ("fn",) or form < 0.6 or t0[0] == "opt" or t0[0] == "map" or (t0[0] == "open" and True):
+        if t0[0] == "mixed":
+            if form < 0.5:
+                self.emit("const %s: %s = %s" % (name, ms(t), e))
+            else:
+                self.emit("const %s = %s" % (name, e))
+                # the inferred type of a literal whose element types all agree is still the fixed shape
+            const = True
+        elif t0[0] in ("fn",) or form < 0.6 or t0[0] == "opt" or t0[0] == "map" or (t0[0] == "open" and True):
             self.emit("%s: %s = %s" % (name, ms(t), e))
         elif form < 0.8:
             self.emit("const %s: %s = %s" % (name, ms(t), e))
             const = True
         else:
+            if t0[0] == "nat":
+                e = self.expr(t, 2, exact=True)      # the inferred type must be t itself, not an alias of it
             self.emit("%s = %s" % (name, e))         # inferred type
         v = self.declare(Var(name, t, const=const, never_nil=never_nil, minlen=minlen, keys=keys))
         if const and t0 == INT and e.isdigit():
@@ -609,6 +701,12 @@ class Gen:
             hi = self.atom(self.expr(INT, 0, exact=True)) if r.random() < 0.5 else hi
         name = self.fresh("i")
         named = r.random() < 0.7
+        if self.fault_at is not None and self.fault_done is None and r.random() < 0.2:
+            w = r.choice([STR, BOOL, open_(INT)])
+            self.fault_at = None
+            self.fault_done = (KIND[kt] + " (loop bound)", ms(w))
+            self.count("fault")
+            hi = "(### FAULT ### %s)" % self.expr(w, 0, need_present=True)
         self.emit("from %s %s %s%s%s {" % (lo, r.choice(["to", "through"]), hi, step, ", " + name if named else ""))
         self.ind += 1
         self.scopes.append({})
@@ -782,6 +880,181 @@ class Gen:
         self.emit("%s[%d] = %s" % (v.name, i, self.expr(et, 1, need_present=True)))
         self.observe("%s[%d]" % (v.name, i), "index-set:" + self.res(et)[0], et)
 
+    def s_unpack(self):
+        r = self.r
+        ms_ = self.vars(lambda v: v.ty[0] == "mixed" and v.minlen == len(v.ty[1]))
+        if not ms_:
+            return self.s_decl()
+        v = r.choice(ms_)
+        names = [self.fresh("x") for _ in v.ty[1]]
+        need_const = any(self.res(t)[0] in ("mixed", "open") for t in v.ty[1])    # a list literal element has a fixed shape
+        is_const = need_const or r.random() < 0.3
+        self.emit("%s[%s] = %s" % ("const " if is_const else "", ", ".join(names), v.name))
+        for n, t in zip(names, v.ty[1]):
+            t0 = self.res(t)
+            self.declare(Var(n, t, const=is_const, never_nil=t0[0] != "opt", assignable=False))
+            self.observe(n, "unpack:" + t0[0], t)
+
+    def s_assert(self):
+        vs = self.vars(lambda v: self.res(v.ty) in (INT, BIGINT, BYTE, BOOL, STR))
+        if not vs:
+            return
+        v = self.r.choice(vs)
+        self.emit("assert %s == %s" % (v.name, v.name))
+
+    def s_elem_opassign(self):
+        r = self.r
+        ls = self.vars(lambda v: v.ty[0] == "open" and v.minlen > 0 and self.is_local(v) and not v.const
+                       and self.res(v.ty[1]) in (INT, BIGINT, FLOAT, STR))
+        fs = []
+        for v in self.vars(lambda v: self.res(v.ty)[0] == "class" and v.never_nil and not v.const):
+            for fnm, ft in self.classes[self.res(v.ty)[1]].fields.items():
+                if self.res(ft) in (INT, BIGINT, FLOAT, STR):
+                    fs.append((v, fnm, ft))
+        if ls and (not fs or r.random() < 0.5):
+            v = r.choice(ls)
+            et = self.res(v.ty[1])
+            target = "%s[%d]" % (v.name, r.randrange(v.minlen))
+        elif fs:
+            v, fnm, ft = r.choice(fs)
+            et = self.res(ft)
+            target = "%s.%s" % (v.name, fnm)
+        else:
+            return self.s_decl()
+        if et == STR:
+            self.emit("%s += %s" % (target, self.atom(self.expr(r.choice(NATS), 1))))
+        else:
+            b = r.choice([x for x in NUMS if arith(et, x) == et])
+            sym = r.choice(["+=", "-=", "*="])
+            self.emit("%s %s %s" % (target, sym, self.lit(b) if sym == "*=" else self.atom(self.expr(b, 1))))
+        self.observe(target, "elem-opassign:" + KIND[et], et)
+
+    def s_strlist(self):
+        r = self.r
+        e = self.atom(self.expr(STR, 1))
+        c = r.choice(["chars", "split", "substring", "index"])
+        if c == "chars":
+            self.observe("%s.chars()" % e, "str-chars", open_(STR))
+        elif c == "split":
+            name = self.fresh()
+            self.emit('const %s = ("ab" + %s).split(1)' % (name, e))
+            self.declare(Var(name, mixed(STR, STR), const=True, minlen=2))
+            self.observe("%s[0]" % name, "str-split-elem", STR)
+            self.observe("%s[1]" % name, "str-split-elem", STR)
+        elif c == "substring":
+            self.observe('("abc" + %s).substring(0, 2)' % e, "str-substring", STR)
+        else:
+            self.observe('("q" + %s)[0]' % e, "str-index", STR)
+
+    def s_nested(self):
+        r = self.r
+        et = r.choice([INT, STR, FLOAT, BOOL])
+        name = self.fresh()
+        rows = []
+        for _ in range(2):
+            rows.append("[" + ", ".join(self.expr(et, 0, need_present=True) for _ in range(2)) + "]")
+        self.emit("%s: [[%s...]...] = [%s]" % (name, KIND[et], ", ".join(rows)))
+        self.declare(Var(name, open_(open_(et)), minlen=2))
+        i, j = r.randrange(2), r.randrange(2)
+        self.observe("%s[%d][%d]" % (name, i, j), "nested-index:" + KIND[et], et)
+        self.emit("%s[%d][%d] = %s" % (name, i, j, self.expr(et, 1, need_present=True)))
+        self.observe("%s[%d][%d]" % (name, i, j), "nested-index-set:" + KIND[et], et)
+        self.observe("%s[%d]" % (name, i), "nested-row", open_(et))
+        self.emit("%s[%d] = [%s]" % (name, i, ", ".join(self.expr(et, 0, need_present=True) for _ in range(3))))
+        self.observe("%s[%d][2]" % (name, i), "nested-row-set:" + KIND[et], et)
+
+    def s_recfn(self):
+        r = self.r
+        if self.fn_depth >= 1:
+            return self.s_decl()
+        rt = r.choice([INT, BIGINT, FLOAT, STR])
+        name = self.fresh("rec")
+        base = self.lit(rt)
+        stepv = {INT: "self(n - 1) + n", BIGINT: "self(n - 1) * n + B1", FLOAT: "self(n - 1) + 0.5", STR: 'self(n - 1) + "x"'}[rt]
+        self.emit("%s = fn(n: int) -> %s {" % (name, KIND[rt]))
+        self.emit("\tif n <= 0 {")
+        self.emit("\t\treturn %s" % base)
+        self.emit("\t}")
+        self.emit("\treturn %s" % stepv)
+        self.emit("}")
+        self.declare(Var(name, fn([INT], rt), assignable=False)).nocall = True     # only called with small literals
+        self.observe("%s(%d)" % (name, r.randint(0, 4)), "recursion:" + KIND[rt], rt)
+
+    def s_hof(self):
+        """functions as values: parameter, result, stored in a list / map"""
+        r = self.r
+        if self.fn_depth >= 1:
+            return self.s_decl()
+        a = r.choice([INT, FLOAT, STR, BOOL])
+        b = r.choice([INT, FLOAT, STR, BOOL, BIGINT])
+        ft = fn([a], b)
+        ap = self.fresh("ap")
+        self.emit("%s = fn(h: %s, x: %s) -> %s {" % (ap, ms(ft), KIND[a], KIND[b]))
+        self.emit("\treturn h(x)")
+        self.emit("}")
+        self.declare(Var(ap, fn([ft, a], b), assignable=False))
+        fs = [v for v in self.vars() if self.res(v.ty) == ft]
+        arg = r.choice(fs).name if fs and r.random() < 0.5 else self.fn_literal([a], b, simple=True)
+        self.observe("%s(%s, %s)" % (ap, arg, self.expr(a, 1)), "hof-call:" + KIND[b], b)
+        mk = self.fresh("mk")
+        self.emit("%s = fn(k: %s) -> (%s) {" % (mk, KIND[b], ms(ft)))
+        self.ind += 1
+        self.scopes.append({})
+        self.fn_bases.append(len(self.scopes) - 1)
+        self.fn_depth += 1
+        self.declare(Var("k", b, assignable=False))
+        saved = self.ret_ty
+        inner = self.fn_literal([a], b, simple=True)
+        self.ret_ty = saved
+        self.emit("return " + inner)
+        self.fn_depth -= 1
+        self.fn_bases.pop()
+        self.scopes.pop()
+        self.ind -= 1
+        self.emit("}")
+        self.declare(Var(mk, fn([b], ft), assignable=False))
+        made = self.fresh("g")
+        self.emit("%s = %s(%s)" % (made, mk, self.expr(b, 0)))
+        self.declare(Var(made, ft, assignable=False))
+        self.observe(made, "fn-value", ft)
+        self.observe("%s(%s)" % (made, self.expr(a, 1)), "closure-call:" + KIND[b], b)
+        lst = self.fresh()
+        self.emit("%s: [%s...] = [%s]" % (lst, ms(ft), made))
+        self.declare(Var(lst, open_(ft), minlen=1))
+        g2 = self.fresh("g")
+        self.emit("%s = %s[0]" % (g2, lst))
+        self.declare(Var(g2, ft, assignable=False))
+        self.observe("%s(%s)" % (g2, self.expr(a, 0)), "fn-from-list:" + KIND[b], b)
+
+    def s_while_unwrap(self):
+        r = self.r
+        if self.fn_depth >= 1:
+            return self.s_decl()
+        rt = r.choice([INT, STR, FLOAT, BIGINT])
+        g = self.fresh("gen")
+        self.emit("%s = fn(i: int) -> %s? {" % (g, KIND[rt]))
+        self.emit("\tif i > 2 {")
+        self.emit("\t\treturn nil")
+        self.emit("\t}")
+        self.emit("\treturn %s" % self.lit(rt))
+        self.emit("}")
+        self.declare(Var(g, fn([INT], opt(rt)), assignable=False))
+        k = self.fresh("k")
+        nx = self.fresh("nx")
+        self.emit("%s = 0" % k)
+        self.emit("%s: %s? = nil" % (nx, KIND[rt]))
+        self.emit("while %s ?= %s(%s) {" % (nx, g, k))
+        self.ind += 1
+        self.scopes.append({})
+        self.emit("%s = %s + 1" % (k, k))
+        self.declare(Var(nx, opt(rt), never_nil=True, assignable=False))
+        self.observe(nx, "while-unwrap:" + KIND[rt], opt(rt))
+        self.scopes.pop()
+        self.ind -= 1
+        self.emit("}")
+        self.declare(Var(k, INT, assignable=False))
+        self.observe(k, "while-unwrap-count", INT)
+
     # ------------------------------------------------------------------ top level
     def gen_class(self):
         r = self.r
@@ -859,8 +1132,14 @@ class Gen:
         return "\n".join(self.lines) + "\n"
 
 
-def generate(rng, size=40):
+def generate(rng, size=40, fault=False):
     g = Gen(rng, size)
+    if fault:
+        # roughly 25 expr() calls per statement: land anywhere in the program
+        g.fault_at = rng.randint(20, max(40, size * 6))
     src = g.program()
-    meta = {"obs": g.obs_meta, "classes": sorted(g.classes), "aliases": {k: ms(v) for k, v in g.aliases.items()}, "dist": g.dist}
+    meta = {"obs": g.obs_meta, "classes": sorted(g.classes), "aliases": {k: ms(v) for k, v in g.aliases.items()}, "dist": g.dist,
+            "fault": g.fault_done}
+    if g.fault_done:
+        src = "# one typed position was given a `%s` where `%s` belongs\n" % (g.fault_done[1], g.fault_done[0]) + src
     return src, meta
